@@ -21,6 +21,7 @@ func profile() sim.Profile {
 	pf.PFaults = 3
 	pf.PMIG = 2
 	pf.MaxCycles = 4
+	pf.PDRA = 3
 	return pf
 }
 
